@@ -50,6 +50,9 @@ def free_vars(e, acc=None):
     elif t == 'tuple':
         for a in e[1]:
             free_vars(a, acc)
+    elif t == 'ucall':
+        for a in e[3]:
+            free_vars(a, acc)
     elif t == 'pow':
         free_vars(e[1], acc)
     else:
@@ -66,6 +69,8 @@ def uses(e, fn):
         return e[1] == fn or any(uses(a, fn) for a in e[2])
     if t == 'tuple':
         return any(uses(a, fn) for a in e[1])
+    if t == 'ucall':
+        return any(uses(a, fn) for a in e[3])
     if t in ('num', 'pi', 'const', 'var'):
         return False
     return any(uses(a, fn) for a in e[1:] if isinstance(a, tuple))
@@ -106,6 +111,9 @@ def to_coq(e):
         return '(if %s then %s else %s)' % (cond_coq(e[1]), to_coq(e[2]), to_coq(e[3]))
     if t == 'tuple':
         return '(%s)' % ', '.join(to_coq(a) for a in e[1])
+    if t == 'ucall':
+        # call of a previously generated definition: e = ('ucall', name, extra_binders, [args])
+        return '(%s %s)' % (e[1], ' '.join(list(e[2]) + [to_coq(a) for a in e[3]]))
     raise ValueError('cannot render %r' % (e,))
 
 
@@ -185,6 +193,8 @@ def evaluate(e, env, funs=None):
         return evaluate(e[2], env, F) if evalc(e[1], env, F) else evaluate(e[3], env, F)
     if t == 'tuple':
         return tuple(evaluate(a, env, F) for a in e[1])
+    if t == 'ucall':
+        return F['user:' + e[1]]([evaluate(a, env, F) for a in e[3]])
     raise ValueError('cannot evaluate %r' % (e,))
 
 
